@@ -207,9 +207,14 @@ Lemma wfp_invalidate_proc : forall p j now, wfp p ->
   exists p', invalidate_proc j now p = Ok p' /\ wfp p' /\ forall i, i <> j -> pvinfo p' i = pvinfo p i.
 Proof.
   intros p j now H. unfold invalidate_proc.
-  destruct (is_running (p_state p) && zmem j (p_running p)).
-  - apply wfp_invalidate. exact H.
-  - exists p. split; [reflexivity|]. split; [exact H|]. reflexivity.
+  assert (H1 : exists p1, (if is_running (p_state p) && zmem j (p_running p) then invalidate p j now else Ok p) = Ok p1
+                          /\ wfp p1 /\ forall i, i <> j -> pvinfo p1 i = pvinfo p i).
+  { destruct (is_running (p_state p) && zmem j (p_running p)).
+    - apply wfp_invalidate. exact H.
+    - exists p. split; [reflexivity|]. split; [exact H|]. reflexivity. }
+  destruct H1 as [p1 [E1 [W1 V1]]]. rewrite E1. cbn [bind].
+  destruct (wfp_invalidate p1 j now W1) as [p' [E2 [W2 V2]]].
+  exists p'. split; [exact E2|]. split; [exact W2|]. intros i Hi. rewrite (V2 i Hi). apply V1. exact Hi.
 Qed.
 
 Lemma wfp_remove : forall p j, wfp p -> amem j (p_infos p) = true ->
@@ -1997,18 +2002,425 @@ Proof.
     destruct (is_stopped_like st) eqn:E2; [rewrite (R2 eq_refl); reflexivity|reflexivity].
 Qed.
 
-(* Observation (DESIGN §6 F11, seen from C12): the "exactly" half of the statement — nothing from an instance
-   that is not seen RUNNING — is not covered by agreement_partial, and is false of the model: a process that is
-   STOPPING on an instance when that instance is lost is not invalidated (status.running_processes() requires
-   process.running()), so the lost instance stays in the running set of a STOPPED instance. *)
+(* ====================================================================== *)
+(* H. nothing lingers from a lost instance (after fix 04680dd, DESIGN §6 F11) *)
+(* ====================================================================== *)
+(* "i is not in the running set of this process" *)
+Definition nr (i : Z) (kp : Z * proc) : Prop := zmem i (p_running (snd kp)) = false.
+
+Lemma invalidate_subset : forall p j now p' i, invalidate p j now = Ok p' ->
+  zmem i (p_running p) = false -> zmem i (p_running p') = false.
+Proof.
+  intros p j now p' i H Hi. destruct (zmem j (p_running p)) eqn:Hz.
+  - destruct (invalidate_inv p j now p' Hz H) as [inf' [_ [_ Hr]]]. rewrite Hr.
+    apply zmem_false. intros HI. apply In_zdiscard in HI. destruct HI as [_ HI].
+    apply zmem_false in Hi. contradiction.
+  - unfold invalidate in H. rewrite Hz in H. inversion H; subst. exact Hi.
+Qed.
+
+Lemma invalidate_clears : forall p j now p', invalidate p j now = Ok p' -> zmem j (p_running p') = false.
+Proof.
+  intros p j now p' H. destruct (zmem j (p_running p)) eqn:Hz.
+  - apply (loss_makes_fatal p j now p' Hz H).
+  - unfold invalidate in H. rewrite Hz in H. inversion H; subst. exact Hz.
+Qed.
+
+Lemma invalidate_proc_running : forall p j now p', invalidate_proc j now p = Ok p' ->
+  zmem j (p_running p') = false /\ forall i, zmem i (p_running p) = false -> zmem i (p_running p') = false.
+Proof.
+  intros p j now p' H. unfold invalidate_proc in H.
+  destruct (if is_running (p_state p) && zmem j (p_running p) then invalidate p j now else Ok p) as [p1|] eqn:E1;
+    simpl in H; [|discriminate].
+  split; [apply (invalidate_clears p1 j now p' H)|].
+  intros i Hi. apply (invalidate_subset p1 j now p' i H).
+  destruct (is_running (p_state p) && zmem j (p_running p)).
+  - apply (invalidate_subset p j now p1 i E1 Hi).
+  - inversion E1; subst. exact Hi.
+Qed.
+
+Lemma map_procs_rel : forall f ps ps', map_procs f ps = Ok ps' ->
+  Forall2 (fun kp kp' => fst kp = fst kp' /\ f (snd kp) = Ok (snd kp')) ps ps'.
+Proof.
+  intros f. induction ps as [|[k p] r IH]; intros ps' H; simpl in H.
+  - inversion H. constructor.
+  - destruct (f p) as [p'|] eqn:E; simpl in H; [|discriminate].
+    destruct (map_procs f r) as [r'|] eqn:Er; simpl in H; [|discriminate].
+    inversion H; subst. constructor; [simpl; auto|apply IH; reflexivity].
+Qed.
+
+Lemma Forall2_transfer : forall {A B} (Rel : A -> B -> Prop) (P : A -> Prop) (Q : B -> Prop) l l',
+  Forall2 Rel l l' -> (forall a b, Rel a b -> P a -> Q b) -> Forall P l -> Forall Q l'.
+Proof.
+  intros A B Rel P Q l l' H Hpq. induction H as [|a b l l' Hab Hr IH]; intros Hall; [constructor|].
+  inversion Hall; subst. constructor; [eapply Hpq; eassumption|apply IH; assumption].
+Qed.
+
+Lemma Forall2_all : forall {A B} (Rel : A -> B -> Prop) (Q : B -> Prop) l l',
+  Forall2 Rel l l' -> (forall a b, Rel a b -> Q b) -> Forall Q l'.
+Proof.
+  intros A B Rel Q l l' H Hq. induction H as [|a b l l' Hab Hr IH]; constructor; [eapply Hq; eassumption|exact IH].
+Qed.
+
+Lemma invalidate_failed_ids_running : forall ids c iso now c',
+  invalidate_failed_ids c ids iso now = Ok c' ->
+  (forall i, Forall (nr i) (r_procs c) -> Forall (nr i) (r_procs c'))
+  /\ (forall i, In i ids -> failed_b c i = true -> Forall (nr i) (r_procs c')).
+Proof.
+  induction ids as [|j r IH]; intros c iso now c' H; simpl in H.
+  - inversion H; subst. split; [auto|intros i []].
+  - assert (Hskip : failed_b c j = false -> invalidate_failed_ids c r iso now = Ok c' ->
+        (forall i, Forall (nr i) (r_procs c) -> Forall (nr i) (r_procs c'))
+        /\ (forall i, In i (j :: r) -> failed_b c i = true -> Forall (nr i) (r_procs c'))).
+    { intros Hf H'. destruct (IH c iso now c' H') as [I1 I2]. split; [exact I1|].
+      intros i [->|Hi] Hfi; [congruence|apply I2; assumption]. }
+    destruct (adm c j) as [s|] eqn:Ea; [|apply Hskip; [unfold failed_b; rewrite Ea; reflexivity|exact H]].
+    destruct s; try (apply Hskip; [unfold failed_b; rewrite Ea; reflexivity|exact H]). clear Hskip.
+    destruct (set_adm c j _ now) as [c1|] eqn:E1; simpl in H; [|discriminate].
+    destruct (map_procs (invalidate_proc j now) (r_procs c1)) as [ps|] eqn:Em; simpl in H; [|discriminate].
+    assert (Hp1 : r_procs c1 = r_procs c).
+    { unfold set_adm in E1. destruct (aget j (r_adm c)) as [[s ct]|]; [|discriminate].
+      destruct (Node.istate_eqb s _); [inversion E1; reflexivity|].
+      destruct (Node.inst_transition_ok s _); [inversion E1; reflexivity|discriminate]. }
+    pose proof (map_procs_rel _ _ _ Em) as Hrel. rewrite Hp1 in Hrel.
+    assert (Hmono : forall i, Forall (nr i) (r_procs c) -> Forall (nr i) ps).
+    { intros i Hall. apply (Forall2_transfer _ (nr i) (nr i) _ _ Hrel); [|exact Hall].
+      intros a b [_ Hf] Ha. unfold nr in *. apply (proj2 (invalidate_proc_running _ _ _ _ Hf)). exact Ha. }
+    assert (Hclear : Forall (nr j) ps).
+    { apply (Forall2_all _ (nr j) _ _ Hrel). intros a b [_ Hf]. unfold nr.
+      apply (proj1 (invalidate_proc_running _ _ _ _ Hf)). }
+    destruct (IH (set_procs c1 ps) iso now c' H) as [I1 I2]. cbn [set_procs r_procs] in I1.
+    split.
+    + intros i Hall. apply I1. apply Hmono. exact Hall.
+    + intros i [->|Hi] Hfi.
+      * apply I1. exact Hclear.
+      * destruct (Z.eq_dec i j) as [->|Nij]; [apply I1; exact Hclear|].
+        apply I2; [exact Hi|].
+        unfold failed_b in *. unfold adm in *. cbn [set_procs r_adm].
+        unfold set_adm in E1. destruct (aget j (r_adm c)) as [[s ct]|] eqn:Eg; [|discriminate].
+        destruct (Node.istate_eqb s _); [inversion E1; subst; exact Hfi|].
+        destruct (Node.inst_transition_ok s _); [|discriminate]. inversion E1; subst.
+        cbn [set_adms r_adm]. rewrite aget_aset_other by exact Nij. exact Hfi.
+Qed.
+
+(* After Context.invalidate_failed no process lists a lost instance any more — whatever its state there was
+   (RUNNING-like or STOPPING) — and the invalidation never adds anybody to a running set. *)
+Theorem invalidate_clears_lost : forall c iso now c', rstep c (InvalidateFailed iso now) = Ok c' ->
+  forall i, failed_b c i = true -> forall k p, aget k (r_procs c') = Some p -> zmem i (p_running p) = false.
+Proof.
+  intros c iso now c' H i Hf k p Ep. simpl in H.
+  destruct (invalidate_failed_ids_running _ c iso now c' H) as [_ I2].
+  assert (Hin : In i (akeys (r_adm c))).
+  { unfold failed_b in Hf. destruct (adm c i) as [s|] eqn:Ea; [|discriminate].
+    apply zmem_In. apply (adm_in_keys c i s Ea). }
+  pose proof (I2 i Hin Hf) as HF. rewrite Forall_forall in HF. apply (HF (k, p)). apply aget_In. exact Ep.
+Qed.
+
+(* ---- the receiver invariant: an instance seen STOPPED (other than the local one) is in no running set ---- *)
+Definition nores (c : rctx) : Prop :=
+  forall i, i <> r_me c -> adm c i = Some ISTOPPED -> Forall (nr i) (r_procs c).
+
+Definition not_added (o : rop) : bool := match o with Added _ _ _ _ => false | _ => true end.
+
+Lemma step_running_frame : forall p sp o p' i, R p sp -> wf_op sp o = true -> step p o = Ok p' ->
+  aget i (sp_infos (spec_step sp o)) = aget i (sp_infos sp) ->
+  zmem i (p_running p') = zmem i (p_running p).
+Proof.
+  intros p sp o p' i HR Hwf E Hg.
+  destruct (step_refines p sp o HR Hwf) as [p'' [E' HR']]. rewrite E in E'. inversion E'; subst p''.
+  destruct HR as [HR _]. destruct HR' as [HR' _].
+  pose proof (rc_run _ _ _ HR i) as A. pose proof (rc_run _ _ _ HR' i) as B.
+  unfold listed_in in *. rewrite Hg in B.
+  destruct (zmem i (p_running p')); destruct (zmem i (p_running p)); try reflexivity.
+  - symmetry. apply A. apply B. reflexivity.
+  - apply B. apply A. reflexivity.
+Qed.
+
+Lemma add_info_running_frame : forall p j st e nm d now p' i, wfp p -> add_info p j st e nm d now = Ok p' ->
+  i <> j -> zmem i (p_running p') = zmem i (p_running p).
+Proof.
+  intros p j st e nm d now p' i [sp HR] E Hij.
+  apply (step_running_frame p sp (AddInfo j st e nm d now) p' i HR eq_refl E).
+  simpl. unfold spec_report. cbn [sp_infos]. apply aget_aset_other. exact Hij.
+Qed.
+
+Lemma update_info_running_frame : forall p j st e nm now p' i, wfp p -> amem j (p_infos p) = true ->
+  update_info p j st e nm now true = Ok p' -> i <> j -> zmem i (p_running p') = zmem i (p_running p).
+Proof.
+  intros p j st e nm now p' i [sp HR] Hm E Hij.
+  apply (step_running_frame p sp (UpdateInfo j st e nm now) p' i HR); [|exact E|].
+  - simpl. rewrite (amem_R p sp j HR). exact Hm.
+  - simpl. unfold spec_report. cbn [sp_infos]. apply aget_aset_other. exact Hij.
+Qed.
+
+Lemma remove_running_frame : forall p j p' i, wfp p -> amem j (p_infos p) = true ->
+  remove_identifier p j = Ok p' -> i <> j -> zmem i (p_running p') = zmem i (p_running p).
+Proof.
+  intros p j p' i [sp HR] Hm E Hij.
+  apply (step_running_frame p sp (Remove j) p' i HR); [|exact E|].
+  - simpl. rewrite (amem_R p sp j HR). exact Hm.
+  - simpl. rewrite aget_adel by (eapply Rcore_skeys; apply HR). destruct (Z.eqb_spec i j); [contradiction|reflexivity].
+Qed.
+
+Lemma load_infos_running : forall infos ps j nm now ps' i, Fwfp ps -> load_infos ps j infos nm now = Ok ps' ->
+  i <> j -> Forall (nr i) ps -> Forall (nr i) ps'.
+Proof.
+  induction infos as [|[[[k0 st] e] d] r IH]; intros ps j nm now ps' i H E Hij Hall; simpl in E.
+  - inversion E; subst. exact Hall.
+  - set (p := match aget k0 ps with Some p => p | None => proc_init end) in *.
+    assert (Hp : wfp p).
+    { unfold p. destruct (aget k0 ps) as [p0|] eqn:Eg; [eapply Fwfp_aget; eassumption|exact wfp_init]. }
+    assert (Hnp : zmem i (p_running p) = false).
+    { unfold p. destruct (aget k0 ps) as [p0|] eqn:Eg; [|reflexivity].
+      rewrite Forall_forall in Hall. apply (Hall (k0, p0)). apply aget_In. exact Eg. }
+    destruct (add_info p j st e nm d now) as [p'|] eqn:Ea; simpl in E; [|discriminate].
+    destruct (wfp_add_info p j st e nm d now Hp) as [p2 [Ea2 [Wp' _]]]. rewrite Ea in Ea2. inversion Ea2; subst p2.
+    apply (IH (aset k0 p' ps) j nm now ps' i); auto.
+    + apply Fwfp_aset; assumption.
+    + apply (Forall_aset (fun q => zmem i (p_running q) = false)); [exact Hall|].
+      rewrite (add_info_running_frame p j st e nm d now p' i Hp Ea Hij). exact Hnp.
+Qed.
+
+Lemma Forall_nr_aset : forall i ps k p, Forall (nr i) ps -> zmem i (p_running p) = false -> Forall (nr i) (aset k p ps).
+Proof. intros i ps k p H Hp. apply (Forall_aset (fun q => zmem i (p_running q) = false)); assumption. Qed.
+
+Lemma nr_aget : forall i ps k p, Forall (nr i) ps -> aget k ps = Some p -> zmem i (p_running p) = false.
+Proof. intros i ps k p H E. rewrite Forall_forall in H. apply (H (k, p)). apply aget_In. exact E. Qed.
+
+Lemma set_adm_procs : forall c j st now c', set_adm c j st now = Ok c' -> r_procs c' = r_procs c /\ r_me c' = r_me c.
+Proof.
+  intros c j st now c' H. unfold set_adm in H. destruct (aget j (r_adm c)) as [[s ct]|]; [|discriminate].
+  destruct (Node.istate_eqb s st); [inversion H; auto|].
+  destruct (Node.inst_transition_ok s st); [inversion H; auto|discriminate].
+Qed.
+
+Lemma rstep_nores : forall c o c', rwf c -> nores c -> not_added o = true -> rstep c o = Ok c' ->
+  nores c' /\ r_me c' = r_me c.
+Proof.
+  intros c o c' W N Hna H.
+  destruct o as [j infos nm now|j inf nm now|j k st e nm now|j k tg st et now|j k|j k b|j rmt now
+                |j ok ts now|j now|iso now|now]; try discriminate.
+  - (* LoadAll *)
+    unfold rstep in H. destruct (valid_state c j) as [s|] eqn:Ev; [|inversion H; subst; auto].
+    destruct s; try (inversion H; subst; auto; fail).
+    destruct (load_infos (r_procs c) j infos nm now) as [ps|] eqn:El; simpl in H; [|discriminate].
+    inversion H; subst c'. split; [|reflexivity].
+    intros i Hi Ha. cbn [set_procs r_procs r_adm adm] in *.
+    assert (Hij : i <> j).
+    { intros ->. destruct (valid_state_some _ _ _ Ev) as [Ea _]. unfold adm in Ea, Ha. cbn [set_procs r_adm] in Ha.
+      rewrite Ea in Ha. discriminate. }
+    apply (load_infos_running infos (r_procs c) j nm now ps i W El Hij). apply N; assumption.
+  - (* ProcEvent *)
+    unfold rstep in H. destruct (valid_state c j) as [s|] eqn:Ev; [|inversion H; subst; auto].
+    destruct (admitted s) eqn:Es; [|inversion H; subst; auto].
+    destruct (aget k (r_procs c)) as [p|] eqn:Ek; [|inversion H; subst; auto].
+    destruct (amem j (p_infos p)) eqn:Em; [|inversion H; subst; auto].
+    destruct (update_info p j st e nm now true) as [p'|] eqn:Eu; simpl in H; [|discriminate].
+    inversion H; subst c'. split; [|reflexivity].
+    intros i Hi Ha. cbn [set_procs r_procs] in *.
+    assert (Hij : i <> j).
+    { intros ->. destruct (valid_state_some _ _ _ Ev) as [Ea _]. unfold adm in Ea, Ha. cbn [set_procs r_adm] in Ha.
+      rewrite Ea in Ha. inversion Ha; subst s. discriminate. }
+    pose proof (N i Hi Ha) as Hall. apply Forall_nr_aset; [exact Hall|].
+    rewrite (update_info_running_frame p j st e nm now p' i (Fwfp_aget _ _ _ W Ek) Em Eu Hij).
+    apply (nr_aget i _ k p Hall Ek).
+  - (* ForcedEvent *)
+    unfold rstep in H. destruct (valid_state c j) as [s|]; [|inversion H; subst; auto].
+    destruct (admitted s); [|inversion H; subst; auto].
+    destruct (aget k (r_procs c)) as [p|] eqn:Ek; [|inversion H; subst; auto].
+    inversion H; subst c'. split; [|reflexivity].
+    intros i Hi Ha. cbn [set_procs r_procs] in *. pose proof (N i Hi Ha) as Hall.
+    apply Forall_nr_aset; [exact Hall|].
+    destruct (force_frame p tg st et) as [_ [Hr _]]. rewrite Hr. apply (nr_aget i _ k p Hall Ek).
+  - (* Removed *)
+    unfold rstep in H. destruct (valid_state c j) as [s|] eqn:Ev; [|inversion H; subst; auto].
+    destruct (admitted s) eqn:Es; [|inversion H; subst; auto].
+    destruct (aget k (r_procs c)) as [p|] eqn:Ek; [|inversion H; subst; auto].
+    destruct (amem j (p_infos p)) eqn:Em; [|inversion H; subst; auto].
+    destruct (remove_identifier p j) as [p'|] eqn:Er; simpl in H; [|discriminate].
+    inversion H; subst c'. split; [|reflexivity].
+    intros i Hi Ha. cbn [set_procs r_procs] in *.
+    assert (Hij : i <> j).
+    { intros ->. destruct (valid_state_some _ _ _ Ev) as [Ea _]. unfold adm in Ea, Ha. cbn [set_procs r_adm] in Ha.
+      rewrite Ea in Ha. inversion Ha; subst s. discriminate. }
+    pose proof (N i Hi Ha) as Hall.
+    destruct (p_infos p'); [apply Forall_adel; exact Hall|].
+    apply Forall_nr_aset; [exact Hall|].
+    rewrite (remove_running_frame p j p' i (Fwfp_aget _ _ _ W Ek) Em Er Hij). apply (nr_aget i _ k p Hall Ek).
+  - (* Disability *)
+    unfold rstep in H. destruct (valid_state c j) as [s|]; [|inversion H; subst; auto].
+    destruct (admitted s); [|inversion H; subst; auto].
+    destruct (aget k (r_procs c)) as [p|] eqn:Ek; [|inversion H; subst; auto].
+    destruct (amem j (p_infos p)); [|inversion H; subst; auto].
+    destruct (step p (Disable j b)) as [p'|] eqn:Ed; simpl in H; [|discriminate].
+    inversion H; subst c'. split; [|reflexivity].
+    intros i Hi Ha. cbn [set_procs r_procs] in *. pose proof (N i Hi Ha) as Hall.
+    apply Forall_nr_aset; [exact Hall|].
+    assert (Hr : p_running p' = p_running p) by (simpl in Ed; destruct (aget j (p_infos p)); inversion Ed; reflexivity).
+    rewrite Hr. apply (nr_aget i _ k p Hall Ek).
+  - (* Tick *)
+    destruct (rstep_tick c j rmt now W) as [c2 [E [_ [Hme [_ [Ha _]]]]]]. rewrite H in E. inversion E; subst c2.
+    split; [|exact Hme]. intros i Hi Hai. rewrite Hme in Hi.
+    assert (Hold : adm c i = Some ISTOPPED).
+    { rewrite Ha in Hai. destruct (tick_starts c j && Z.eqb i j); [discriminate|exact Hai]. }
+    pose proof (N i Hi Hold) as Hall.
+    (* update_times never touches the running sets *)
+    unfold rstep in H. destruct (valid_state c j) as [s|]; [|inversion H; subst; exact Hall].
+    destruct (Z.eqb j (r_me c) || _); [|inversion H; subst; exact Hall].
+    destruct (map_procs (tick_times j rmt) (r_procs c)) as [ps|] eqn:Em; simpl in H; [|discriminate].
+    assert (Hps : Forall (nr i) ps).
+    { apply (Forall2_transfer _ (nr i) (nr i) _ _ (map_procs_rel _ _ _ Em)); [|exact Hall].
+      intros a b [_ Hf] Hnr. unfold nr in *. unfold tick_times in Hf. simpl in Hf.
+      assert (Hr : p_running (snd b) = p_running (snd a)) by (destruct (aget j (p_infos (snd a))); inversion Hf; reflexivity).
+      rewrite Hr. exact Hnr. }
+    destruct (Node.istate_eqb s ISTOPPED).
+    + destruct (set_adm_procs _ _ _ _ _ H) as [Hp _]. rewrite Hp. exact Hps.
+    + inversion H; subst. exact Hps.
+  - (* Auth *)
+    destruct (rstep_auth c j ok ts now) as [c2 [E [Hp [Hme [Ha _]]]]]. rewrite H in E. inversion E; subst c2.
+    split; [|exact Hme]. intros i Hi Hai. rewrite Hme in Hi. rewrite Hp. apply N; [exact Hi|].
+    rewrite Ha in Hai. destruct (auth_accepted c j ts && Z.eqb i j) eqn:Eacc; [|exact Hai].
+    exfalso. apply andb_true_iff in Eacc. destruct Eacc as [_ Eij]. apply Z.eqb_eq in Eij. subst i.
+    unfold auth_target in Hai. destruct ok; [discriminate|].
+    destruct (Z.eqb_spec j (r_me c)); [contradiction|discriminate].
+  - (* Failure *)
+    destruct (rstep_failure c j now) as [c2 [E [Hp [Hme [Ha _]]]]]. rewrite H in E. inversion E; subst c2.
+    split; [|exact Hme]. intros i Hi Hai. rewrite Hme in Hi. rewrite Hp. apply N; [exact Hi|].
+    rewrite Ha in Hai. destruct (is_active c j && Z.eqb i j); [discriminate|exact Hai].
+  - (* InvalidateFailed *)
+    destruct (rstep_invalidate_failed c iso now W) as [c2 [E [_ [Hme [Ha _]]]]]. rewrite H in E. inversion E; subst c2.
+    split; [|exact Hme]. intros i Hi Hai. rewrite Hme in Hi. simpl in H.
+    destruct (invalidate_failed_ids_running _ c iso now c' H) as [I1 I2].
+    rewrite Ha in Hai. destruct (failed_b c i) eqn:Ef.
+    + apply I2; [|exact Ef]. unfold failed_b in Ef. destruct (adm c i) as [s|] eqn:Ea; [|discriminate].
+      apply zmem_In. apply (adm_in_keys c i s Ea).
+    + apply I1. apply N; assumption.
+  - (* Activate *)
+    destruct (rstep_activate c now) as [c2 [E [Hp [Hme [Ha _]]]]]. rewrite H in E. inversion E; subst c2.
+    split; [|exact Hme]. intros i Hi Hai. rewrite Hme in Hi. rewrite Hp. apply N; [exact Hi|].
+    rewrite Ha in Hai. destruct (checked_b c i); [discriminate|exact Hai].
+Qed.
+
+(* ---- lifting a receiver invariant to every schedule of the cluster ---- *)
+Definition ctx_rel (nj nj' : cnode) : Prop :=
+  cn_ctx nj' = cn_ctx nj \/ exists o, not_added o = true /\ rstep (cn_ctx nj) o = Ok (cn_ctx nj').
+
+Lemma ctx_rel_refl : forall n, ctx_rel n n.
+Proof. intros n. left. reflexivity. Qed.
+
+Lemma set1_ctx : forall c x nx nx' j nj', aget x (c_nodes c) = Some nx -> ctx_rel nx nx' ->
+  aget j (c_nodes (set_node c x nx')) = Some nj' -> exists nj, aget j (c_nodes c) = Some nj /\ ctx_rel nj nj'.
+Proof.
+  intros c x nx nx' j nj' Hx Hr Hj. rewrite nodes_set in Hj. destruct (Z.eqb_spec j x) as [->|N].
+  - inversion Hj; subst. eauto.
+  - exists nj'. split; [exact Hj|apply ctx_rel_refl].
+Qed.
+
+Lemma cstep_ctx : forall c a c' j nj', cstep c a = Ok c' -> aget j (c_nodes c') = Some nj' ->
+  exists nj, aget j (c_nodes c) = Some nj /\ ctx_rel nj nj'.
+Proof.
+  intros c a c' j nj' H Hj. unfold cstep in H. cbv zeta in H.
+  assert (Hsame : c_nodes c' = c_nodes c -> exists nj, aget j (c_nodes c) = Some nj /\ ctx_rel nj nj').
+  { intros E. rewrite E in Hj. exists nj'. split; [exact Hj|apply ctx_rel_refl]. }
+  destruct a as [i k st e|i j0|i j0|i j0|j0 i|j0|j0|j0 i|j0 iso].
+  - destruct (aget i (c_nodes c)) as [n|] eqn:Ei; [|inversion H; subst; apply Hsame; reflexivity].
+    destruct (amem k (cn_truth n)); [|inversion H; subst; apply Hsame; reflexivity].
+    destruct (rstep (cn_ctx n) _) as [ctx'|] eqn:Er; simpl in H; [|discriminate]. inversion H; subst c'.
+    cbn [tick_clock c_nodes] in Hj. refine (set1_ctx c i n _ j nj' Ei _ Hj).
+    right. eexists. split; [|exact Er]. reflexivity.
+  - destruct (aget i (c_nodes c)) as [ni|] eqn:Ei; [|inversion H; subst; apply Hsame; reflexivity].
+    destruct (aget j0 (c_nodes c)) as [nj0|] eqn:Ej0; [|inversion H; subst; apply Hsame; reflexivity].
+    destruct (out_queue ni j0) as [|m rest]; [inversion H; subst; apply Hsame; reflexivity|].
+    set (ni' := set_out ni (aset j0 rest (cn_out ni))) in *.
+    assert (K1 : aget j (c_nodes (set_node c i ni')) = Some nj' -> exists nj, aget j (c_nodes c) = Some nj /\ ctx_rel nj nj').
+    { apply (set1_ctx c i ni ni' j nj' Ei). left. reflexivity. }
+    destruct m as [k st e nm| |]; try (inversion H; subst c'; apply K1; exact Hj).
+    destruct (sender_active ni j0); [|inversion H; subst c'; apply K1; exact Hj].
+    destruct (rstep (cn_ctx nj0) _) as [ctx'|] eqn:Er; simpl in H; [|discriminate]. inversion H; subst c'.
+    cbn [tick_clock c_nodes] in Hj. rewrite nodes_set in Hj. destruct (Z.eqb_spec j j0) as [->|N].
+    + inversion Hj; subst nj'. exists nj0. split; [exact Ej0|]. right. eexists. split; [|exact Er]. reflexivity.
+    + apply K1. exact Hj.
+  - destruct (aget i (c_nodes c)) as [ni|] eqn:Ei; [|inversion H; subst; apply Hsame; reflexivity].
+    destruct (aget j0 (c_nodes c)) as [nj0|]; [|inversion H; subst; apply Hsame; reflexivity].
+    destruct (out_queue ni j0) as [|m rest]; inversion H; subst c'; [apply Hsame; reflexivity|].
+    cbn [tick_clock c_nodes] in Hj. refine (set1_ctx c i ni _ j nj' Ei _ Hj). left; reflexivity.
+  - destruct (aget j0 (c_nodes c)) as [n|] eqn:En; [|inversion H; subst; apply Hsame; reflexivity].
+    destruct (rstep (cn_ctx n) _) as [ctx'|] eqn:Er; simpl in H; [|discriminate]. inversion H; subst c'.
+    cbn [tick_clock c_nodes] in Hj. refine (set1_ctx c j0 n _ j nj' En _ Hj).
+    right. eexists. split; [|exact Er]. reflexivity.
+  - destruct (aget j0 (c_nodes c)) as [n|] eqn:En; [|inversion H; subst; apply Hsame; reflexivity].
+    destruct (aget i (c_nodes c)) as [ni|]; [|inversion H; subst; apply Hsame; reflexivity].
+    destruct (valid_state (cn_ctx n) i); inversion H; subst c'; [|apply Hsame; reflexivity].
+    cbn [tick_clock c_nodes] in Hj. refine (set1_ctx c j0 n _ j nj' En _ Hj). left; reflexivity.
+  - destruct (aget j0 (c_nodes c)) as [n|] eqn:En; [|inversion H; subst; apply Hsame; reflexivity].
+    destruct (cn_ntf n) as [|[i m] rest]; [inversion H; subst; apply Hsame; reflexivity|].
+    destruct m as [k st e nm|tbl nm|ok ts].
+    + inversion H; subst c'. cbn [tick_clock c_nodes] in Hj.
+      refine (set1_ctx c j0 n _ j nj' En _ Hj). left; reflexivity.
+    + destruct (rstep (cn_ctx n) _) as [ctx'|] eqn:Er; simpl in H; [|discriminate]. inversion H; subst c'.
+      cbn [tick_clock c_nodes] in Hj. refine (set1_ctx c j0 n _ j nj' En _ Hj).
+      right. eexists. split; [|exact Er]. reflexivity.
+    + destruct (rstep (cn_ctx n) _) as [ctx'|] eqn:Er; simpl in H; [|discriminate]. inversion H; subst c'.
+      cbn [tick_clock c_nodes] in Hj. refine (set1_ctx c j0 n _ j nj' En _ Hj).
+      right. eexists. split; [|exact Er]. reflexivity.
+  - destruct (aget j0 (c_nodes c)) as [n|] eqn:En; [|inversion H; subst; apply Hsame; reflexivity].
+    destruct (rstep (cn_ctx n) _) as [ctx'|] eqn:Er; simpl in H; [|discriminate]. inversion H; subst c'.
+    cbn [tick_clock c_nodes] in Hj. refine (set1_ctx c j0 n _ j nj' En _ Hj).
+    right. eexists. split; [|exact Er]. reflexivity.
+  - destruct (aget j0 (c_nodes c)) as [n|] eqn:En; [|inversion H; subst; apply Hsame; reflexivity].
+    destruct (rstep (cn_ctx n) _) as [ctx'|] eqn:Er; simpl in H; [|discriminate]. inversion H; subst c'.
+    cbn [tick_clock c_nodes] in Hj. refine (set1_ctx c j0 n _ j nj' En _ Hj).
+    right. eexists. split; [|exact Er]. reflexivity.
+  - destruct (aget j0 (c_nodes c)) as [n|] eqn:En; [|inversion H; subst; apply Hsame; reflexivity].
+    destruct (rstep (cn_ctx n) _) as [ctx'|] eqn:Er; simpl in H; [|discriminate]. inversion H; subst c'.
+    cbn [tick_clock c_nodes] in Hj. refine (set1_ctx c j0 n _ j nj' En _ Hj).
+    right. eexists. split; [|exact Er]. reflexivity.
+Qed.
+
+Lemma crun_ctx_inv : forall (I : Z -> rctx -> Prop),
+  (forall j c o c', I j c -> not_added o = true -> rstep c o = Ok c' -> I j c') ->
+  forall tr c c', (forall j nj, aget j (c_nodes c) = Some nj -> I j (cn_ctx nj)) -> crun c tr = Ok c' ->
+  forall j nj, aget j (c_nodes c') = Some nj -> I j (cn_ctx nj).
+Proof.
+  intros I Hstep. induction tr as [|a r IH]; intros c c' H0 Hr j nj Hj; simpl in Hr.
+  - inversion Hr; subst. apply H0. exact Hj.
+  - destruct (cstep c a) as [c1|] eqn:E; simpl in Hr; [|discriminate].
+    apply (IH c1 c'); [|exact Hr|exact Hj].
+    intros j1 nj1 Hj1. destruct (cstep_ctx c a c1 j1 nj1 E Hj1) as [n0 [E0 [Hs|[o [Hna Ho]]]]].
+    + rewrite Hs. apply H0. exact E0.
+    + apply (Hstep j1 (cn_ctx n0) o _ (H0 j1 n0 E0) Hna Ho).
+Qed.
+
+(* For EVERY schedule (clean or not), at every point: an instance that j sees STOPPED is in no running set of
+   j's Context. With running_agreement this gives the "exactly" half of the property for STOPPED instances.
+   What remains open: an instance that became ISOLATED through a refused AUTHORIZATION after a stale ALL_INFO was
+   loaded in the same CHECKING period (Context.on_authorization isolates without invalidating processes);
+   CHECKING / CHECKED / FAILED are transient (handshake or loss in progress, excluded by quiescence). *)
+Theorem no_residue_stopped : forall truths tr c, crun (cinit truths) tr = Ok c ->
+  forall j i nj, aget j (c_nodes c) = Some nj -> i <> j -> adm (cn_ctx nj) i = Some ISTOPPED ->
+    forall k p, aget k (r_procs (cn_ctx nj)) = Some p -> zmem i (p_running p) = false.
+Proof.
+  intros truths tr c Hr j i nj Ej Hij Ha k p Ep.
+  assert (HI : rwf (cn_ctx nj) /\ r_me (cn_ctx nj) = j /\ nores (cn_ctx nj)).
+  { apply (crun_ctx_inv (fun j c => rwf c /\ r_me c = j /\ nores c)) with (tr := tr) (c := cinit truths) (c' := c); auto.
+    - intros j1 c1 o c1' [W [Hme N]] Hna Ho. destruct (rstep_total c1 o W) as [c2 [E2 W2]].
+      rewrite Ho in E2. inversion E2; subst c2. destruct (rstep_nores c1 o c1' W N Hna Ho) as [N' Hme'].
+      split; [exact W2|]. split; [rewrite Hme'; exact Hme|exact N'].
+    - intros j1 nj1 Hj1. destruct (cinit_node truths j1 nj1 Hj1) as [t [_ ->]].
+      split; [apply rinit_rwf|]. split; [reflexivity|]. intros i1 _ _. constructor. }
+  destruct HI as [_ [Hme N]]. rewrite <- Hme in Hij.
+  apply (nr_aget i _ k p (N i Hij Ha) Ep).
+Qed.
+
+(* the schedule that used to leave a residue (a process STOPPING on an instance that is then lost) *)
 Definition w_residue : list action :=
   handshake_self 1 ++ handshake_self 2 ++ handshake 2 1 ++ handshake 1 2 ++
   [ LocalChange 2 7 STOPPING true; Deliver 2 1; Fail 1 2; InvalidateAt 1 false ].
 
-Example lost_stopping_residue :
+Example lost_stopping_cleared :
   clean (cinit w_truths) w_residue = true
   /\ (let c := final_of w_truths w_residue in
-      quiescent c = true /\ sees c 1 2 = Some ISTOPPED /\ running_at c 1 7 = [2]).
+      quiescent c = true /\ sees c 1 2 = Some ISTOPPED /\ running_at c 1 7 = []
+      /\ view_of c 1 7 2 = Some (FATAL, false)).
 Proof. vm_compute. repeat split; reflexivity. Qed.
 
 (* ---------- "whether a process is stopped or running is agreed" (forward direction) ---------- *)
